@@ -23,6 +23,10 @@ PROGRAMS = {
     "imr_toggle": "ccfb0000ccfb8f00130a",
     "isr_clear": "ccfc00001306",
     "ir": "fe001304",
+    "clr_halt": "ccfc00de1306",                    # MV (FC),0 ; HALT ; JR start   (a polled, masked request is acknowledged, then the CPU halts)
+    "lcd": "083fa800a00008b9a800a000130e",           # MV A,3F ; MV [0A000],A ; MV A,B9 ; MV [0A000],A ; JR start   (display on, page set, VRAM untouched)
+    "xram": "085aa8ff7f057c001308",                  # MV A,5A ; MV [57FFF],A ; DEC A ; JR ...   (last byte of a RAM expansion overlay, Python only)
+    "card": "085aa8ffff047c001308",                  # MV A,5A ; MV [4FFFF],A ; DEC A ; JR ...   (last byte of the card window is written)
 }
 HANDLERS = {
     "reti": "0001",
@@ -165,7 +169,7 @@ def monitor(impl, cfg, cname, hist, pre, ev, post, mon, vb: VB, bnds) -> Tuple:
             if pre["regs"][n] != post["regs"][n]:
                 vb.add(sig("event-changes-cpu-registers"), f"{impl} {cname}: {ev} changed {n} {pre['regs'][n]:#x}->{post['regs'][n]:#x}", wit)
     # ---------------- pending requests are not lost -------------------------------------------------------------
-    writes_isr = cname.split("|")[0] == "isr_clear" or "clr" in cname.split("|")[1]
+    writes_isr = cname.split("|")[0] in ("isr_clear", "clr_halt") or "clr" in cname.split("|")[1]
     if pre["power"] == "running" and not off_mode:
         lost = isr_pre & ~isr_post & 0x0F
         if ev[0] == "release_on":
@@ -293,7 +297,10 @@ def explore(impl, h, cfg, cname, depth, max_dev, vb: VB, roots_len: int = 5):
 
 
 def make_cfg(p, hname, imr, timer, kol=0xFF):
-    return M.default_cfg(bytes.fromhex(PROGRAMS[p]), bytes.fromhex(HANDLERS[hname]), imr=imr, timer=timer, kb_press=1, kol=kol)
+    cfg = M.default_cfg(bytes.fromhex(PROGRAMS[p]), bytes.fromhex(HANDLERS[hname]), imr=imr, timer=timer, kb_press=1, kol=kol)
+    if p == "xram":
+        cfg["expand_ram"] = (0x8000, 0x50000)       # PCE500Emulator.expand_ram: a data-backed RAM overlay 0x50000-0x57FFF
+    return cfg
 
 
 def _shard(args):
@@ -316,7 +323,7 @@ def _shard(args):
 
 
 def combos_for(impl, thorough, seed):
-    progs = list(PROGRAMS)
+    progs = [p for p in PROGRAMS if p != "xram"]      # xram only adds a RAM expansion overlay for C16
     hands = list(HANDLERS)
     if impl == "rust":
         imrs = IMRS if thorough else [0x00, 0x81, 0x84, 0x88, 0x8F, 0x0F]
